@@ -11,6 +11,7 @@
 EXTENDS Naturals, Integers, Sequences, FiniteSets, TLC, TLCExt, Json, IOUtils, CelEval
 LOCAL ZO == INSTANCE CelZoo
 LOCAL AST == INSTANCE CelAst
+LOCAL GR == INSTANCE CelGrammar
 
 Rec == ndJsonDeserialize(IOEnv.TRACE)
 
@@ -65,6 +66,12 @@ PureOK(r) ==
         /\ Len(r.vars_after) = Len(r.vars)
         /\ \A i \in 1..Len(r.vars) : r.vars_after[i][1] = r.vars[i][1] /\ Same(r.vars[i][2], r.vars_after[i][2])
   /\ ("held" \in DOMAIN r) => \A i \in 1..Len(r.held) : Same(r.held[i][1], r.held[i][2])
+\* End to end: the tree that was evaluated (exported by the implementation's parser) is the tree the
+\* grammar transcription assigns to the source text, so a parser change cannot hide behind a faithful evaluator.
+ParseAgrees(r) ==
+  ("text" \in DOMAIN r /\ "ast" \in DOMAIN r) =>
+     LET p == GR!Parse(r.text) IN
+     p.sentence /\ ((~p.u /\ ~GR!IsBad(p.t)) => GR!TreeSame(p.t, r.ast))
 TwinOK(r) == "twin" \in DOMAIN r => (SameOutcome(r.out, r.twin.out) /\ Len(r.log) = Len(r.twin.log))
 
 Init == l = 1 /\ bad = << >> /\ ndev = 0
@@ -73,7 +80,7 @@ Next == /\ l <= Len(Rec)
         /\ LET r == Rec[l]
                fs == Finals(r)
            IN
-           /\ bad' = IF (\E fin \in fs : Explains(fin, r)) /\ TwinOK(r) /\ PureOK(r) THEN bad ELSE Append(bad, r.id)
+           /\ bad' = IF (\E fin \in fs : Explains(fin, r)) /\ TwinOK(r) /\ PureOK(r) /\ ParseAgrees(r) THEN bad ELSE Append(bad, r.id)
            /\ ndev' = IF r.out.k \in {"v", "e"} /\ \A fin \in fs : fin.dev THEN ndev + 1 ELSE ndev
 Spec == Init /\ [][Next]_vars
 
